@@ -28,6 +28,8 @@ def whitelist_specs():
         ("::ffff:127.0.0.3", c14.spec("single", 6, "::ffff:127.0.0.3")),
         ("::1", c14.spec("single", 6, "::1")),
         ("127.0.0.0/8", c14.spec("cidr", 4, "127.0.0.0", p=8)),
+        ("127.0.0.200-127.0.1.10", c14.spec("range", 4, "127.0.0.200", "127.0.1.10")),
+        ("127.0.0.0/16", c14.spec("cidr", 4, "127.0.0.0", p=16)),
     ]
 
 
@@ -76,7 +78,7 @@ def run_scenario(binary, proto, root, sc):
         stat = proto.encode("STAT_FILE", path="/")
         clients = {}      # cid -> (Client, state)
         cid = 0
-        srcs = ["127.0.0.%d" % k for k in range(1, 13)]
+        srcs = ["127.0.0.%d" % k for k in range(1, 13)] + ["127.0.0.250", "127.0.0.255", "127.0.1.0", "127.0.1.5", "127.0.1.11", "127.3.7.0", "127.255.255.254"]
 
         def connect():
             nonlocal cid
